@@ -129,6 +129,13 @@ def run(R, tier):
             t = G.rand_mv(an)
             if not t[4]:
                 break
+        if c % 3 == 2 and alg.d >= 2:
+            # a single-grade subject that lacks a blade of its grade (a point / line with a zero coordinate left out)
+            g_ = rng.randrange(1, alg.d)
+            gk = [k_ for k_ in canon if bin(k_).count('1') == g_]
+            if len(gk) >= 2:
+                ks_ = rng.sample(gk, rng.randint(1, len(gk) - 1))
+                t = ('mv', an, ks_, [[rng.randint(-9, 9)] for _ in ks_], False, 'list')
         mv = G.to_py(t)
         other = G.to_py(('mv', an, canon, [[0]] * len(canon), False, 'list'))
         w = alg.graph(other, mv)
